@@ -1,3 +1,6 @@
 package agent
 
-const c19Steps = 4
+const (
+	c19Steps   = 4
+	c07Classes = 9
+)
